@@ -860,9 +860,10 @@ func HashMapOfValueIndex(vm *Thread, hashMap *HashMapOfValue, key value.Value) (
 		}
 
 		// when we reach the start index
-		// all slots are checked
+		// all slots are checked:
+		// a deleted slot seen on the way is still free
 		if index == startIndex {
-			return -1, value.Undefined
+			return deletedIndex, value.Undefined
 		}
 	}
 }
